@@ -1,0 +1,14 @@
+//go:build verif
+
+package eventloop
+
+// VerifYield, if set, is called at scheduling points that matter for interleaving
+// (currently: the run loop found the queue empty and is about to wait for the next event).
+// A deterministic simulator uses it to decide when the goroutine proceeds.
+var VerifYield func(point string)
+
+func verifYield(point string) {
+	if f := VerifYield; f != nil {
+		f(point)
+	}
+}
